@@ -240,6 +240,16 @@ Theorem C06_registry_judgement_holds : forall W, Jsr.wf_jworld W = true -> foral
 Proof. exact JsrSeed.c06_judgement_true. Qed.
 Print Assumptions C06_registry_judgement_holds.
 
+(* the newest-dependency date at graph level: the version the builder picks for a requirement that no
+   version already selected in the graph satisfies is never too new for its package (late_of W p: the
+   versions of p for which JsrVersionResolver::get_for_package(p).matches_newest_dependency_date is false,
+   computed by the real crate, exclusions included) *)
+Theorem C06_registry_selection_in_date : forall W req versions existing cached late v y,
+  Jsr.resolve_version W req versions existing cached late = Some (v, y) ->
+  Jsr.best_match W req existing None = None -> mem v late = false.
+Proof. exact JsrSeed.resolve_version_in_date. Qed.
+Print Assumptions C06_registry_selection_in_date.
+
 (* Non-vacuity, and the reproduction of F-C06b as the model sees it (the world is the harness's
    abstraction of: main.ts imports jsr:@s/a@1 and jsr:@s/b@2; @s/a has 1.0.0 and 1.1.0; @s/b has only
    1.0.0, so the first pass cannot satisfy @s/b@2 and the builder restarts; the lockfile selects
